@@ -368,8 +368,15 @@ func (P *Program) desc(v ssa.Value, deep bool) string {
 		P.descMemo = map[descKey]string{}
 		P.descBusy = map[descKey]bool{}
 	}
+	memo := P.descMemo
+	if P.ov != nil {
+		if s, ok := P.ov[v]; ok {
+			return s
+		}
+		memo = P.ovMemo
+	}
 	k := descKey{v, deep}
-	if s, ok := P.descMemo[k]; ok {
+	if s, ok := memo[k]; ok {
 		return s
 	}
 	if P.descBusy[k] {
@@ -396,7 +403,7 @@ func (P *Program) desc(v ssa.Value, deep bool) string {
 		s = fmt.Sprintf("h%x<%s...>", sha1.Sum([]byte(s)), s[:200])
 	}
 	delete(P.descBusy, k)
-	P.descMemo[k] = s
+	memo[k] = s
 	return s
 }
 
@@ -658,3 +665,44 @@ func isRangeIndex(idx ssa.Value) bool {
 }
 
 func isPhi(v ssa.Value) bool { _, ok := v.(*ssa.Phi); return ok }
+
+// LitKeyWith recomputes the key of a literal with some values replaced by placeholders
+// (used to compare literals about "the value returned by this call" across call sites).
+func (P *Program) LitKeyWith(l Lit, ov map[ssa.Value]string) string {
+	P.ov, P.ovMemo = ov, map[descKey]string{}
+	defer func() { P.ov, P.ovMemo = nil, nil }()
+	return P.litKey(l)
+}
+
+func (P *Program) litKey(l Lit) string {
+	switch l.Kind {
+	case "eq":
+		a, b := P.Desc(l.X), P.Desc(l.Y)
+		if a > b {
+			a, b = b, a
+		}
+		return "eq(" + a + ", " + b + ")"
+	case "lt":
+		return "lt(" + P.Desc(l.X) + ", " + P.Desc(l.Y) + ")"
+	case "or", "and":
+		var keys []string
+		for _, s := range l.Subs {
+			k := P.litKey(s)
+			if !s.Pos {
+				k = "not(" + k + ")"
+			}
+			keys = append(keys, k)
+		}
+		sort.Strings(keys)
+		return l.Kind + "(" + strings.Join(keys, ", ") + ")"
+	}
+	if l.Val != nil {
+		if l.Kind == "rangeloop" || l.Kind == "rangefunc" {
+			if b, ok := l.Val.(*ssa.BinOp); ok {
+				return "lt(" + P.Desc(b.X) + ", " + P.Desc(b.Y) + ")"
+			}
+		}
+		return P.Desc(l.Val)
+	}
+	return l.Key
+}
